@@ -391,6 +391,23 @@ def run(chk):
         return True, "", sorted(keys)
     chk.ob("C18.R5:ExcludeTraceparentProps", "the ids carried by the traceparent are not also stored as ambient props (dropped when check)", exclude_props)
 
+    def ctxt_props_order():
+        """The view a TraceparentCtxt hands out enumerates the ids synthesised from the active traceparent *before* the wrapped context's
+        props: lookups are first-match-wins, so the other order lets a `trace_id`/`span_id` left in the wrapped context shadow the
+        traceparent's - events and child spans then carry ids the outgoing header does not."""
+        b = P.impl_method("emit_core::props::Props", "emit_traceparent::TraceparentCtxtProps<P>", "for_each")
+        fe = [c for c in b.calls(normal_only=True) if c.callee.get("name") == "for_each"]
+        own = [c for c in fe if (mir.o_field_path(b.origin(c.args[0]))[1] or [None])[-1] == "ctxt"]
+        inner = [c for c in fe if "inner" in (mir.o_field_path(b.origin(c.args[0]))[1] or [])]
+        if len(own) != 1 or len(inner) != 1:
+            return False, ("TraceparentCtxtProps::for_each must enumerate the synthesised span context (field `ctxt`) and the wrapped props (field "
+                           "`inner`) once each; found %d and %d" % (len(own), len(inner))), [], b.span
+        if own[0].bb == inner[0].bb or not b.dominates(own[0].bb, inner[0].bb):
+            return False, ("the wrapped context's props are enumerated before (or without) the ids synthesised from the active traceparent: an id key "
+                           "stored in the wrapped context shadows the traceparent's"), [], inner[0].loc
+        return True, "", [own[0].loc, inner[0].loc]
+    chk.ob("C18.R5:props-order", "the active traceparent's ids are enumerated before (and so win over) the wrapped context's props", ctxt_props_order)
+
     # ---- R6 -------------------------------------------------------------------------------------------------------------
     def is_parent_of():
         b = P.body(TP + "ActiveTraceparent::is_parent_of") if P.has_body(TP + "ActiveTraceparent::is_parent_of") else None
@@ -439,6 +456,8 @@ def run(chk):
     # frames are entered/exited only through the RAII guard (shared with C03/C04)
     from . import c03, c05
     c03.bracket_rules(chk, P, "C18")
+    from . import witness
+    witness.witness_rule(chk, "C18", 2)
     # inside an unsampled trace no span is emitted: a guard the filter rejected never runs a completion (shared with C05)
     c05.completion_rules(chk, P, "C18")
 
